@@ -260,6 +260,13 @@ def eager_contraction_generic_to_tuple(red_op, bin_op, reduced_vars, *terms):
 
 @eager.register(Contraction, AssociativeOp, AssociativeOp, frozenset, tuple)
 def eager_contraction_generic_recursive(red_op, bin_op, reduced_vars, terms):
+    if (
+        red_op is not ops.null
+        and bin_op is not ops.null
+        and (red_op, bin_op) not in DISTRIBUTIVE_OPS
+    ):
+        return None  # reductions cannot be pushed into the operands
+
     # Count the number of terms in which each variable is reduced.
     counts = Counter()
     for term in terms:
